@@ -11,12 +11,51 @@
 #include <cmath>
 #include <cfloat>
 #include <cerrno>
+#include <cfenv>
+#include <optional>
 
 using vrt::Rng;
 using vrt::sfmt;
 typedef std::string S;
 
 static std::string show(const S &s) { return vrt::hex(s.data(), s.size()); }
+
+// ---------------------------------------------------------------- rounding direction
+// glibc's printf and strtod / strtof honour the floating-point rounding direction of the calling thread (fesetround): "%.1f" of
+// 0.25 is "0.2" to-nearest and "0.3" upward, "%g" of 0.1 is "0.100001" upward, strtod("0.1") has another last bit downward.  The
+// property asks for what the C library gives for the same call, so a share of all cases runs under each of the four directions.
+// The direction is in force ONLY around the reference call and the library call it is compared with (struct Dir); generators,
+// bookkeeping and reports run to-nearest, so the harness's own arithmetic is the same whatever the case's direction.
+static const int DIRS[4] = {FE_TONEAREST, FE_UPWARD, FE_DOWNWARD, FE_TOWARDZERO};
+static const char *dir_name(int d) { return d == FE_TONEAREST ? "to-nearest" : d == FE_UPWARD ? "upward" : d == FE_DOWNWARD ? "downward" : "toward-zero"; }
+static int g_dir = FE_TONEAREST;            // what the next Dir scope switches to
+struct Dir {
+    Dir() { if (g_dir != FE_TONEAREST) fesetround(g_dir); }
+    ~Dir() { if (g_dir != FE_TONEAREST) fesetround(FE_TONEAREST); }
+    Dir(const Dir &) = delete;
+    Dir &operator=(const Dir &) = delete;
+};
+struct UseDir {
+    int saved;
+    explicit UseDir(int d) : saved(g_dir) { g_dir = d; }
+    ~UseDir() { g_dir = saved; }
+    UseDir(const UseDir &) = delete;
+    UseDir &operator=(const UseDir &) = delete;
+};
+// half of the cases of a phase to-nearest, a sixth each upward / downward / toward zero; a function of the case address only
+static int dir_of_case(uint64_t i, uint64_t salt)
+{
+    switch ((vrt::fnv_u64(i, vrt::fnv_u64(salt)) >> 11) % 6) {
+    case 3: return FE_UPWARD;
+    case 4: return FE_DOWNWARD;
+    case 5: return FE_TOWARDZERO;
+    default: return FE_TONEAREST;
+    }
+}
+static void count_dir(const char *what)
+{
+    if (g_dir != FE_TONEAREST) vrt::count(sfmt("rounding.%s.%s", what, dir_name(g_dir)));
+}
 
 static S c_render(const char *fmt, double v)
 {
@@ -78,34 +117,49 @@ static S ref_format(const Spec &s, double v)
 // `prefix` (no braces in it) is output in front of the field: literal text of the format string, or - `prefix_as_argument` - a string
 // argument formatted before the number, so that the rendering and its padding land at any offset of the output
 template <typename FT>
-static void format_case(const Spec &s, FT value, const S &prefix = S(), bool prefix_as_argument = false)
+static S format_case(const Spec &s, FT value, const S &prefix = S(), bool prefix_as_argument = false)
 {
     const double dv = static_cast<double>(value);
     const S field = "[" + spec_text(s) + "]";
     const S fmt = prefix.empty() ? field : prefix_as_argument ? "{}" + field : prefix + field;
     const S fmt_shown = prefix.empty() ? field : sfmt("<%zu bytes %s>", prefix.size(), prefix_as_argument ? "from a string argument" : "of literal text") + field;
     vrt::cur_rewind();
-    vrt::cur_printf("format fmt=%s value=%s type=%s\n", fmt_shown.c_str(), dbl_bits(dv).c_str(), sizeof(FT) == 4 ? "float" : "double");
+    vrt::cur_printf("format fmt=%s value=%s type=%s rounding=%s\n", fmt_shown.c_str(), dbl_bits(dv).c_str(), sizeof(FT) == 4 ? "float" : "double", dir_name(g_dir));
     vrt::Exact<char> f(fmt.data(), fmt.size(), true);
-    const S rendering = ref_format(s, dv);
-    S want = prefix + "[" + rendering + "]";
+    S rendering;
+    ST::string got;
+    std::string threw, threw_what;
     vrt::evals();
-    try {
-        ST::string got = (!prefix.empty() && prefix_as_argument) ? ST::format(f.data(), vrt::mk(prefix), value) : ST::format(f.data(), value);
+    {
+        Dir in_force;           // reference and library call under the case's rounding direction, nothing else
+        rendering = ref_format(s, dv);
+        try {
+            got = (!prefix.empty() && prefix_as_argument) ? ST::format(f.data(), vrt::mk(prefix), value) : ST::format(f.data(), value);
+        } catch (const std::exception &e) {
+            threw = typeid(e).name();
+            threw_what = e.what();
+        }
+    }
+    S want = prefix + "[" + rendering + "]";
+    if (!threw.empty())
+        vrt::violation(sfmt("C13:format:threw:%s", vrt::demangle(threw.c_str()).c_str()), sfmt("fmt=%s value=%s rounding=%s: %s", fmt_shown.c_str(), dbl_bits(dv).c_str(), dir_name(g_dir), threw_what.c_str()));
+    else {
         if (vrt::str_of(got) != want) {
             if (want.size() <= 400 && got.size() <= 400)
-                vrt::violation("C13:format:differs-from-printf", sfmt("fmt=%s value=%s got=%s want=%s", fmt.c_str(), dbl_bits(dv).c_str(),
+                vrt::violation("C13:format:differs-from-printf", sfmt("fmt=%s value=%s rounding=%s got=%s want=%s", fmt.c_str(), dbl_bits(dv).c_str(), dir_name(g_dir),
                                                                       vrt::str_of(got).substr(0, 200).c_str(), want.substr(0, 200).c_str()));
             else {
                 const S g = vrt::str_of(got);
                 const size_t at = scale::first_diff(g, want);
-                vrt::violation("C13:format:differs-from-printf", sfmt("fmt=%s value=%s got %s want %s (first difference at %zu)", fmt_shown.c_str(), dbl_bits(dv).c_str(),
+                vrt::violation("C13:format:differs-from-printf", sfmt("fmt=%s value=%s rounding=%s got %s want %s (first difference at %zu)", fmt_shown.c_str(), dbl_bits(dv).c_str(), dir_name(g_dir),
                                                                       scale::brief(g, at).c_str(), scale::brief(want, at).c_str(), at));
             }
         }
         if (got.c_str()[got.size()] != 0) vrt::violation("C13:format:no-terminator", fmt_shown);
-    } catch (const std::exception &e) {
-        vrt::violation(sfmt("C13:format:threw:%s", vrt::demangle(typeid(e).name()).c_str()), sfmt("fmt=%s value=%s: %s", fmt_shown.c_str(), dbl_bits(dv).c_str(), e.what()));
+    }
+    if (g_dir != FE_TONEAREST) {
+        count_dir("format_calls");
+        if (rendering.size() <= 2000 && ref_format(s, dv) != rendering) vrt::count("rounding.format_rendering_differs_from_to_nearest");
     }
     want = "[" + rendering + "]";
     size_t rl = want.size() - 2;
@@ -113,6 +167,7 @@ static void format_case(const Spec &s, FT value, const S &prefix = S(), bool pre
     if (rl >= 62 && rl <= 66 && s.width == 0) vrt::count(sfmt("format.rendering_len_%zu", rl));
     if (rl >= 64) vrt::count("format.rendering_64_or_longer");
     if (s.width > 0 && static_cast<size_t>(s.width) > ref_format(Spec{s.cls, s.precision, s.plus, 0, 0, 0, 0}, dv).size()) vrt::count("format.padded");
+    return rendering;
 }
 
 // how a stream came to hold what it holds before the number goes in
@@ -193,7 +248,8 @@ template <typename FT>
 static void nearly_full_stream(FT value, size_t mark, bool end_anchored, unsigned history, char pattern, Rng *r)
 {
     const double dv = static_cast<double>(value);
-    const S want = c_render("%g", dv);
+    S want;
+    { Dir in_force; want = c_render("%g", dv); }
     for (int d = -1; d <= 1; ++d) {
         const long start = static_cast<long>(mark) - (end_anchored ? static_cast<long>(want.size()) : 0) + d;
         if (start < 0 || (!r && want.size() + 2 > mark)) continue;
@@ -204,17 +260,18 @@ static void nearly_full_stream(FT value, size_t mark, bool end_anchored, unsigne
             vrt::Box<ST::string_stream> first;
             fill_stream(*first, prefix, CHUNKS, r);
             vrt::Box<ST::string_stream> second(std::move(*first));
-            *second << value << "tail";
+            { Dir in_force; *second << value << "tail"; }
             *s2 = std::move(*second);
         } else {
             fill_stream(*s2, prefix, history, r);
+            Dir in_force;
             *s2 << value << "tail";
         }
         vrt::evals();
         const S got(s2->raw_buffer(), s2->size());
         if (got != prefix + want + "tail") {
             const size_t at = scale::first_diff(got, prefix + want + "tail");
-            vrt::violation("C13:string_stream:nearly-full-stream", sfmt("value=%s after %zu bytes (%s) got ...%s; %s, first difference at %zu", dbl_bits(dv).c_str(), fill, history_name(r ? history : 0),
+            vrt::violation("C13:string_stream:nearly-full-stream", sfmt("value=%s rounding=%s after %zu bytes (%s) got ...%s; %s, first difference at %zu", dbl_bits(dv).c_str(), dir_name(g_dir), fill, history_name(r ? history : 0),
                                                                         got.substr(fill > 4 ? std::min(fill - 4, got.size()) : 0, 60).c_str(), scale::brief(got, at).c_str(), at));
         }
         vrt::count("mini.nearly_full_stream_inserts");
@@ -226,39 +283,48 @@ static void mini_case(FT value)
 {
     const double dv = static_cast<double>(value);
     vrt::cur_rewind();
-    vrt::cur_printf("from_float/from_double/string_stream value=%s\n", dbl_bits(dv).c_str());
+    vrt::cur_printf("from_float/from_double/string_stream value=%s rounding=%s\n", dbl_bits(dv).c_str(), dir_name(g_dir));
     static const char classes[] = "efgEFG";
     for (const char *c = classes; *c; ++c) {
         char pf[3] = {'%', *c, 0};
-        S want = c_render(pf, dv);
-        ST::string got;
-        if constexpr (sizeof(FT) == 4) got = ST::string::from_float(value, *c);
-        else got = ST::string::from_double(value, *c);
-        vrt::evals();
+        S want;
+        ST::string got, viad;
+        {
+            Dir in_force;
+            want = c_render(pf, dv);
+            if constexpr (sizeof(FT) == 4) got = ST::string::from_float(value, *c);
+            else got = ST::string::from_double(value, *c);
+            viad = ST::string::from_float(dv, *c);      // the overload of from_float that takes a double forwards the letter as well
+        }
+        vrt::evals(2);
         if (vrt::str_of(got) != want || got.c_str()[got.size()] != 0)
             vrt::violation(sfmt("C13:from_%s:differs-from-printf", sizeof(FT) == 4 ? "float" : "double"),
-                           sfmt("value=%s class=%c got=%s want=%s", dbl_bits(dv).c_str(), *c, vrt::str_of(got).substr(0, 200).c_str(), want.substr(0, 200).c_str()));
-        {   // the overload of from_float that takes a double forwards the letter as well
-            ST::string viad = ST::string::from_float(dv, *c);
-            vrt::evals();
-            if (vrt::str_of(viad) != want)
-                vrt::violation("C13:from_float(double,letter):differs-from-printf", sfmt("value=%s class=%c got=%s want=%s", dbl_bits(dv).c_str(), *c, vrt::str_of(viad).substr(0, 200).c_str(), want.substr(0, 200).c_str()));
-        }
+                           sfmt("value=%s class=%c rounding=%s got=%s want=%s", dbl_bits(dv).c_str(), *c, dir_name(g_dir), vrt::str_of(got).substr(0, 200).c_str(), want.substr(0, 200).c_str()));
+        if (vrt::str_of(viad) != want)
+            vrt::violation("C13:from_float(double,letter):differs-from-printf", sfmt("value=%s class=%c rounding=%s got=%s want=%s", dbl_bits(dv).c_str(), *c, dir_name(g_dir), vrt::str_of(viad).substr(0, 200).c_str(), want.substr(0, 200).c_str()));
         if (want.size() >= 64) vrt::count("mini.rendering_64_or_longer");
         if (want.size() >= 62 && want.size() <= 66) vrt::count(sfmt("mini.rendering_len_%zu", want.size()));
     }
     {
-        S want = c_render("%g", dv);
-        ST::string got = sizeof(FT) == 4 ? ST::string::from_float(value) : ST::string::from_double(value);
-        ST::string got2 = ST::string::from_float(dv);       // from_float(double) forwards to from_double
-        vrt::evals(2);
-        if (vrt::str_of(got) != want || vrt::str_of(got2) != want)
-            vrt::violation("C13:from_float:default-class", sfmt("value=%s got=%s want=%s", dbl_bits(dv).c_str(), vrt::str_of(got).c_str(), want.c_str()));
+        S want;
+        ST::string got, got2;
         vrt::Box<ST::string_stream> ss;
-        *ss << "<" << value << ">";
-        vrt::evals();
+        {
+            Dir in_force;
+            want = c_render("%g", dv);
+            got = sizeof(FT) == 4 ? ST::string::from_float(value) : ST::string::from_double(value);
+            got2 = ST::string::from_float(dv);       // from_float(double) forwards to from_double
+            *ss << "<" << value << ">";
+        }
+        vrt::evals(3);
+        if (vrt::str_of(got) != want || vrt::str_of(got2) != want)
+            vrt::violation("C13:from_float:default-class", sfmt("value=%s rounding=%s got=%s want=%s", dbl_bits(dv).c_str(), dir_name(g_dir), vrt::str_of(got).c_str(), want.c_str()));
         if (S(ss->raw_buffer(), ss->size()) != "<" + want + ">")
-            vrt::violation("C13:string_stream:differs-from-printf-g", sfmt("value=%s got=%s want=%s", dbl_bits(dv).c_str(), S(ss->raw_buffer(), ss->size()).c_str(), want.c_str()));
+            vrt::violation("C13:string_stream:differs-from-printf-g", sfmt("value=%s rounding=%s got=%s want=%s", dbl_bits(dv).c_str(), dir_name(g_dir), S(ss->raw_buffer(), ss->size()).c_str(), want.c_str()));
+        if (g_dir != FE_TONEAREST) {
+            count_dir("mini_values");
+            if (c_render("%g", dv) != want) vrt::count("rounding.mini_rendering_differs_from_to_nearest");
+        }
         // the same into a stream that is already nearly full: the rendering ends just below, at and just beyond the
         // in-object capacity (256) / the first heap capacity (512), and more text follows
         for (size_t cap : {size_t(256), size_t(512)})
@@ -287,47 +353,75 @@ static int stale_errno()
     return vals[n++ % 5];
 }
 
-static void parse_case(const S &text)
+// `str` holds `text`; with `float_first` to_float is called before to_double (what one leaves behind on the thread must not show
+// in the other, whichever comes first)
+static void parse_on(const ST::string &str, const S &text, bool float_first = false)
 {
     vrt::cur_rewind();
-    vrt::cur_printf("parse text=%s\n", show(text).c_str());
-    vrt::Box<ST::string> st(vrt::mk(text));
+    vrt::cur_printf("parse text=%s rounding=%s\n", show(text).c_str(), dir_name(g_dir));
+    const ST::string *st = &str;
     const char *c = st->c_str();
     const bool empty = text.empty();
-    {
+    auto as_double = [&]() {
         char *endp = nullptr;
-        double want = strtod(c, &endp);
+        double want, got, got2;
+        ST::conversion_result r;
+        {
+            Dir in_force;
+            want = strtod(c, &endp);
+            predirty(r);
+            errno = stale_errno();
+            got = st->to_double(r);
+            got2 = st->to_double();
+        }
         bool wok = !empty && endp != c, wfull = empty || endp == c + text.size();
         if (empty) want = 0;
-        ST::conversion_result r;
-        predirty(r);
-        errno = stale_errno();
-        double got = st->to_double(r), got2 = st->to_double();
         vrt::evals(2);
         if (memcmp(&got, &want, 8) != 0 || r.ok() != wok || r.full_match() != wfull)
-            vrt::violation("C13:to_double", sfmt("text=%s got=%s ok=%d full=%d want=%s ok=%d full=%d", show(text).c_str(), dbl_bits(got).c_str(), r.ok(), r.full_match(), dbl_bits(want).c_str(), wok, wfull));
+            vrt::violation("C13:to_double", sfmt("text=%s rounding=%s got=%s ok=%d full=%d want=%s ok=%d full=%d", show(text).c_str(), dir_name(g_dir), dbl_bits(got).c_str(), r.ok(), r.full_match(), dbl_bits(want).c_str(), wok, wfull));
         if (memcmp(&got2, &want, 8) != 0)
-            vrt::violation("C13:to_double:no-result-arg", sfmt("text=%s got=%s want=%s", show(text).c_str(), dbl_bits(got2).c_str(), dbl_bits(want).c_str()));
+            vrt::violation("C13:to_double:no-result-arg", sfmt("text=%s rounding=%s got=%s want=%s", show(text).c_str(), dir_name(g_dir), dbl_bits(got2).c_str(), dbl_bits(want).c_str()));
         vrt::count(wok ? (wfull ? "parse.full_match" : "parse.partial") : "parse.no_match");
-    }
-    {
+        if (g_dir != FE_TONEAREST) {
+            count_dir("parsed_texts");
+            if (text.size() <= 2000) { const double near = strtod(c, nullptr); if (memcmp(&near, &want, 8) != 0) vrt::count("rounding.strtod_differs_from_to_nearest"); }
+        }
+    };
+    auto as_float = [&]() {
         char *endp = nullptr;
-        float want = strtof(c, &endp);
+        float want, got, got2;
+        ST::conversion_result r;
+        {
+            Dir in_force;
+            want = strtof(c, &endp);
+            predirty(r);
+            errno = stale_errno();
+            got = st->to_float(r);
+            got2 = st->to_float();
+        }
         bool wok = !empty && endp != c, wfull = empty || endp == c + text.size();
         if (empty) want = 0;
-        ST::conversion_result r;
-        predirty(r);
-        errno = stale_errno();
-        float got = st->to_float(r), got2 = st->to_float();
         vrt::evals(2);
         if (memcmp(&got, &want, 4) != 0 || r.ok() != wok || r.full_match() != wfull)
-            vrt::violation("C13:to_float", sfmt("text=%s got=%.9g ok=%d full=%d want=%.9g ok=%d full=%d", show(text).c_str(), got, r.ok(), r.full_match(), want, wok, wfull));
+            vrt::violation("C13:to_float", sfmt("text=%s rounding=%s got=%.9g ok=%d full=%d want=%.9g ok=%d full=%d", show(text).c_str(), dir_name(g_dir), got, r.ok(), r.full_match(), want, wok, wfull));
         if (memcmp(&got2, &want, 4) != 0)
-            vrt::violation("C13:to_float:no-result-arg", sfmt("text=%s got=%.9g want=%.9g", show(text).c_str(), got2, want));
-        double viadouble = strtod(c, nullptr);
-        if (static_cast<float>(viadouble) != want && want == want) vrt::count("parse.float_differs_from_rounded_double");
-    }
+            vrt::violation("C13:to_float:no-result-arg", sfmt("text=%s rounding=%s got=%.9g want=%.9g", show(text).c_str(), dir_name(g_dir), got2, want));
+        if (g_dir == FE_TONEAREST) {
+            double viadouble = strtod(c, nullptr);
+            if (static_cast<float>(viadouble) != want && want == want) vrt::count("parse.float_differs_from_rounded_double");
+        } else if (text.size() <= 2000) {
+            const float near = strtof(c, nullptr);
+            if (memcmp(&near, &want, 4) != 0) vrt::count("rounding.strtof_differs_from_to_nearest");
+        }
+    };
+    if (float_first) { as_float(); as_double(); } else { as_double(); as_float(); }
     vrt::distinct(vrt::fnv1a(text.data(), text.size(), 61));
+}
+
+static void parse_case(const S &text)
+{
+    vrt::Box<ST::string> st(vrt::mk(text));
+    parse_on(*st, text);
 }
 
 // ---------------------------------------------------------------- scale: floating-point texts of several KiB up to ~1 MiB
@@ -538,6 +632,231 @@ static Spec pick_spec(Rng &r, double v)
     return s;
 }
 
+// ---------------------------------------------------------------- state that survives a call: sequences of renderings / parses
+// Rendering a value and parsing a text are functions of (value or text, notation, rounding direction in force during the call);
+// nothing an earlier call on the thread did may show.  A sequence step renders ONE value through one entry point under one
+// direction and compares it with snprintf under that direction; consecutive steps repeat the value with the direction, the entry
+// point, the type, the notation or one bit changed.
+enum FVia { F_FORMAT, F_FROM, F_FROM_FLOAT_OF_DOUBLE, F_STREAM, N_FVIA };
+static const char *fvia_name(unsigned v)
+{
+    static const char *const n[] = {"format", "from_double", "from_float(double)", "string_stream"};
+    return n[v % N_FVIA];
+}
+struct Step {
+    double v = 0;               // representable as float when as_float
+    bool as_float = false;
+    char letter = 'g';          // e f g E F G
+    int precision = -1;         // used by ST::format only
+    unsigned via = F_FROM;      // falls back to from_double / from_float where the entry point has no such notation
+    int dir = FE_TONEAREST;
+};
+static S step_text(const Step &s)
+{
+    return sfmt("%s %s '%c' precision %d via %s rounding=%s", s.as_float ? "float" : "double", dbl_bits(s.v).c_str(), s.letter, s.precision, fvia_name(s.via), dir_name(s.dir));
+}
+static unsigned effective_via(const Step &s)
+{
+    if (s.via == F_FORMAT && (s.letter == 'F' || s.letter == 'G')) return F_FROM;
+    if (s.via == F_STREAM && s.letter != 'g') return F_FROM;
+    return s.via;
+}
+
+// returns what the C library renders (without padding)
+static S run_step(const Step &s, const Step *prev, const char *what, bool record)
+{
+    UseDir use(s.dir);
+    const unsigned via = effective_via(s);
+    static uint64_t *const per_via[N_FVIA] = {&vrt::counter("memo.via.format"), &vrt::counter("memo.via.from_double"), &vrt::counter("memo.via.from_float(double)"), &vrt::counter("memo.via.string_stream")};
+    ++*per_via[via];
+    if (via == F_FORMAT) {
+        Spec sp{};
+        sp.cls = s.letter == 'g' ? 0 : s.letter;
+        sp.precision = s.precision;
+        return s.as_float ? format_case<float>(sp, static_cast<float>(s.v)) : format_case<double>(sp, s.v);
+    }
+    if (record) {
+        vrt::cur_rewind();
+        vrt::cur_printf("%s: %s\n", what, step_text(s).c_str());
+    }
+    const char pf[3] = {'%', s.letter, 0};
+    const float fv = s.as_float ? static_cast<float>(s.v) : 0.0f;
+    S want, got;
+    {
+        Dir in_force;
+        want = c_render(pf, s.v);
+        switch (via) {
+        case F_FROM: got = vrt::str_of(s.as_float ? ST::string::from_float(fv, s.letter) : ST::string::from_double(s.v, s.letter)); break;
+        case F_FROM_FLOAT_OF_DOUBLE: got = vrt::str_of(ST::string::from_float(s.v, s.letter)); break;
+        default: {
+            vrt::Box<ST::string_stream> ss;
+            if (s.as_float) *ss << fv; else *ss << s.v;
+            got.assign(ss->raw_buffer(), ss->size());
+            break;
+        }
+        }
+    }
+    vrt::evals();
+    if (got != want)
+        vrt::violation(sfmt("C13:consecutive:%s:differs-from-printf", fvia_name(via)),
+                       sfmt("%s: %s got=%s want=%s; the call right before it on this thread: %s", what, step_text(s).c_str(), got.substr(0, 200).c_str(), want.substr(0, 200).c_str(), prev ? step_text(*prev).c_str() : "(first of the sequence)"));
+    count_dir("sequence_steps");
+    return want;
+}
+
+static bool same_bits(double a, double b) { return memcmp(&a, &b, 8) == 0; }
+
+// what two consecutive steps have in common (counted, so that a run shows which repetitions it produced)
+static void classify_steps(const Step &a, const S &wa, const Step &b, const S &wb)
+{
+    static uint64_t &n = vrt::counter("memo.consecutive_renderings");
+    ++n;
+    const bool same_value = same_bits(a.v, b.v) && a.as_float == b.as_float, same_notation = a.letter == b.letter && (a.precision == b.precision || (effective_via(a) != F_FORMAT && effective_via(b) != F_FORMAT));
+    if (same_value && same_notation) {
+        if (a.dir != b.dir) {
+            static uint64_t &c = vrt::counter("rounding.same_value_twice_direction_changed_in_between"), &d = vrt::counter("rounding.same_value_twice_and_the_renderings_differ");
+            ++c;
+            const bool comparable = effective_via(a) == effective_via(b) || (a.precision == -1 && b.precision == -1) || (effective_via(a) != F_FORMAT && effective_via(b) != F_FORMAT);
+            if (comparable && wa != wb) ++d;
+            if (effective_via(a) == effective_via(b)) { static uint64_t &e = vrt::counter("rounding.same_value_same_entry_point_direction_changed"); ++e; }
+        } else if (effective_via(a) != effective_via(b)) {
+            static uint64_t &c = vrt::counter("memo.same_value_through_another_entry_point"); ++c;
+        } else {
+            static uint64_t &c = vrt::counter("memo.identical_rendering_repeated"); ++c;
+        }
+    } else if (same_value) {
+        static uint64_t &c = vrt::counter("memo.same_value_other_notation"); ++c;
+    } else if (same_bits(a.v, b.v)) {
+        static uint64_t &c = vrt::counter("memo.same_value_as_the_other_type"); ++c;
+    } else if (same_bits(a.v, -b.v)) {
+        static uint64_t &c = vrt::counter("memo.same_value_other_sign"); ++c;
+    }
+}
+
+static int other_dir(Rng &r, int d) { int n; do n = DIRS[r.below(4)]; while (n == d); return n; }
+
+static Step next_step(Rng &r, const Step &prev, unsigned kind)
+{
+    Step s = prev;
+    switch (kind) {
+    case 0: s.dir = other_dir(r, prev.dir); break;                                                   // only the direction changes
+    case 1: s.via = static_cast<unsigned>(r.below(N_FVIA)); break;                                   // another entry point
+    case 2: s.dir = other_dir(r, prev.dir); s.via = static_cast<unsigned>(r.below(N_FVIA)); break;   // both
+    case 3: break;                                                                                   // the same again
+    case 4:                                                                                          // the neighbouring value
+        if (s.as_float) s.v = static_cast<double>(std::nextafterf(static_cast<float>(s.v), r.chance(1, 2) ? INFINITY : -INFINITY));
+        else s.v = std::nextafter(s.v, r.chance(1, 2) ? INFINITY : -INFINITY);
+        break;
+    case 5: s.v = -s.v; break;
+    case 6:                                                                                          // the same number as the other type
+        if (s.as_float) s.as_float = false;
+        else if (std::isnan(s.v) || std::isinf(s.v) || std::fabs(s.v) <= 3e38) { s.v = static_cast<double>(static_cast<float>(s.v)); s.as_float = true; }
+        break;
+    case 7: {                                                                                        // another notation
+        static const char letters[] = {'e', 'f', 'g', 'E', 'F', 'G'};
+        s.letter = r.pick(letters);
+        if (r.chance(1, 2)) s.precision = r.chance(1, 2) ? -1 : static_cast<int>(r.below(25));
+        break;
+    }
+    default: {
+        s = Step();
+        s.v = pick_double(r);
+        s.as_float = r.chance(1, 4) && (std::isnan(s.v) || std::isinf(s.v) || std::fabs(s.v) <= 3e38);
+        if (s.as_float) s.v = static_cast<double>(static_cast<float>(s.v));
+        static const char letters[] = {'g', 'g', 'g', 'e', 'f', 'E', 'F', 'G'};
+        s.letter = r.pick(letters);
+        if (s.letter == 'f' || s.letter == 'F') { if (std::fabs(s.v) > 1e40 && r.chance(3, 4)) s.letter = 'g'; }       // keep most renderings short (the long ones have their own phases)
+        s.precision = r.chance(2, 3) ? -1 : static_cast<int>(r.below(25));
+        s.via = static_cast<unsigned>(r.below(N_FVIA));
+        s.dir = r.chance(1, 2) ? FE_TONEAREST : DIRS[r.below(4)];
+        break;
+    }
+    }
+    return s;
+}
+
+// ---- texts
+// a decimal / hexadecimal / special text of exactly n bytes (n >= 8) that is consumed completely: blanks, sign, digits, point, digits, exponent
+static S float_text(Rng &r, size_t n)
+{
+    S t;
+    if (r.chance(1, 12)) {          // far outside the range: the result depends on the direction (largest finite / infinity, smallest subnormal / zero)
+        t = r.chance(1, 2) ? "1e400" : "1e-400";
+        if (r.chance(1, 2)) t.insert(0, "-");
+        t.insert(0, n > t.size() ? n - t.size() : 0, ' ');
+        return t;
+    }
+    const size_t blanks = r.chance(1, 3) ? r.below(n / 3) : 0;
+    t.append(blanks, ' ');
+    if (r.chance(1, 3)) t += r.chance(1, 2) ? '-' : '+';
+    S ex;
+    if (r.chance(1, 2)) ex = sfmt("e%+03d", static_cast<int>(r.range(-320, 300)));
+    const bool hex = r.chance(1, 10);
+    if (hex) { t += "0x"; ex = r.chance(1, 2) ? sfmt("p%+d", static_cast<int>(r.range(-1080, 1000))) : S(); }
+    size_t room = n > t.size() + ex.size() ? n - t.size() - ex.size() : 1;
+    const size_t point = r.chance(1, 6) ? room : r.below(room);        // where the point goes (room: none)
+    for (size_t i = 0; i < room; ++i) {
+        if (i == point && i + 1 < room) { t += '.'; continue; }
+        const unsigned d = static_cast<unsigned>(r.below(hex ? 16 : 10));
+        t += static_cast<char>(d < 10 ? '0' + d : 'a' + d - 10);
+    }
+    t += ex;
+    return t;
+}
+
+// 3..6 texts of exactly n bytes with the same first and last `share` bytes; the middles differ in what decides the result
+static std::vector<S> sibling_floats(Rng &r, size_t n, size_t &share)
+{
+    share = std::min<size_t>(16, (n - 4) / 2);
+    S head;
+    {
+        const size_t blanks = r.chance(1, 2) ? 0 : r.below(share);
+        head.append(blanks, ' ');
+        if (head.size() < share && r.chance(1, 2)) head += r.chance(1, 2) ? '-' : '+';
+        const bool early_point = r.chance(1, 2);
+        while (head.size() < share) head += (early_point && head.size() + 1 == share) ? '.' : static_cast<char>(r.chance(1, 2) ? '0' : '1' + r.below(9));
+    }
+    S tail;
+    switch (r.below(3)) {
+    case 0: for (size_t i = 0; i < share; ++i) tail += static_cast<char>('0' + r.below(10)); break;                 // digits to the end
+    case 1: { const S ex = sfmt("e%+03d", static_cast<int>(r.range(-99, 99))); for (size_t i = 0; i + ex.size() < share; ++i) tail += static_cast<char>('0' + r.below(10)); tail += ex; tail.resize(share, '0'); break; }
+    default: for (size_t i = 0; i < share; ++i) tail += "xyz _,g"[r.below(7)]; break;                                  // bytes behind the place where the C library stops
+    }
+    const size_t mid = n - 2 * share;
+    const size_t count = 3 + r.below(4);
+    std::vector<S> out;
+    S m0;
+    for (size_t i = 0; i < mid; ++i) m0 += static_cast<char>('0' + r.below(10));
+    for (size_t k = 0; k < count; ++k) {
+        S m = m0;
+        if (mid) {
+            const size_t at = r.below(mid);
+            switch (r.below(7)) {
+            case 0: m[at] = static_cast<char>(m[at] == '9' ? '0' : m[at] + 1); break;         // another digit
+            case 1: m[at] = '.'; break;                                                        // a (second?) point
+            case 2: m[at] = 'e'; break;                                                        // an exponent starts here
+            case 3: m[at] = "x ,_"[r.below(4)]; break;                                         // the number stops here
+            case 4: m[at] = '\0'; break;
+            case 5: m[0] = 'z'; break;                                                         // little or nothing to convert
+            default: for (size_t i = 0; i < mid; ++i) m[i] = static_cast<char>('0' + r.below(10)); break;
+            }
+        }
+        out.push_back(head + m + tail);
+    }
+    return out;
+}
+
+// puts `t` into `cur` in one of four ways; three of them aim at the address the previous text had
+static void store_text(std::optional<vrt::Box<ST::string>> &cur, const S &t, unsigned how)
+{
+    if (!cur) { cur.emplace(vrt::mk(t)); return; }
+    switch (how % 4) {
+    case 0: **cur = vrt::mk(t); break;                                                                                               // assigned
+    case 1: vrt::placement_force_parks() = 1; **cur = ST::string(); **cur = vrt::mk(t); vrt::placement_force_parks() = 0; break;     // emptied (block parked), assigned (block taken again)
+    default: vrt::placement_force_parks() = 2; cur.reset(); cur.emplace(vrt::mk(t)); vrt::placement_force_parks() = 0; break;        // destroyed and rebuilt at once
+    }
+}
+
 static void body()
 {
     ambient::enable(3);
@@ -557,6 +876,8 @@ static void body()
 
     // renderings of every length around the 64-byte scratch buffers
     vrt::phase("len_sweep", 200, [&](uint64_t i, Rng &) {
+      for (int dir : DIRS) {                        // ... under each rounding direction
+        UseDir use(dir);
         int p = static_cast<int>(i % 100);          // precision 0..99
         bool plus = i >= 100;
         for (char cls : {'f', 'e', 'E', char(0)}) {
@@ -576,6 +897,7 @@ static void body()
             mini_case<double>(v * 1.25);
             if (i < 39) mini_case<float>(static_cast<float>(v));
         }
+      }
         vrt::distinct(vrt::fnv_u64(i, 62));
     });
 
@@ -592,9 +914,10 @@ static void body()
         vrt::st().assert_throws = false;
     });
 
-    vrt::phase("format_random", vrt::tier_count(400000, 10000000), [&](uint64_t, Rng &r) {
+    vrt::phase("format_random", vrt::tier_count(400000, 10000000), [&](uint64_t i, Rng &r) {
         double v = pick_double(r);
         Spec s = pick_spec(r, v);
+        UseDir use(dir_of_case(i, 1));
         if (r.chance(1, 4)) format_case<float>(s, static_cast<float>(v));
         else format_case<double>(s, v);
         uint64_t b;
@@ -604,8 +927,9 @@ static void body()
         if (vrt::want_sample("format_random") && s.width && s.precision > 3) vrt::sample("format_random", sfmt("ST::format(\"%s\", %s) == \"%s\"", st.c_str(), dbl_bits(v).c_str(), ref_format(s, v).substr(0, 120).c_str()));
     });
 
-    vrt::phase("mini_random", vrt::tier_count(150000, 4000000), [&](uint64_t, Rng &r) {
+    vrt::phase("mini_random", vrt::tier_count(150000, 4000000), [&](uint64_t i, Rng &r) {
         double v = pick_double(r);
+        UseDir use(dir_of_case(i, 2));
         if (r.chance(1, 3)) mini_case<float>(static_cast<float>(v));
         else mini_case<double>(v);
         uint64_t b;
@@ -619,14 +943,17 @@ static void body()
                                             "1.7976931348623159e308", "4.9406564584124654e-324", "2.4703282292062327e-324", "2.4703282292062328e-324", "3.4028234664e38", "3.4028235677973366e38",
                                             "1.401298464324817e-45", "7.006492321624085e-46", "1.0000000596046447753906250", "1.0000000596046447753906251", "1.0000000596046447753906249",
                                             "16777217", "16777216.999999999", "9007199254740993", "0.1", "0.30000000000000004", "123abc", "abc", "--1", "+-1", "1e5e5", "1.2.3", "true"};
-        for (const char *t : texts) parse_case(t);
-        parse_case(S("1.5\0", 4));
-        parse_case(S("1.5\0" "7", 5));
-        parse_case(S("\0" "1.5", 4));
-        parse_case(S("12\0\0", 4));
+        for (int dir : DIRS) {
+            UseDir use(dir);
+            for (const char *t : texts) parse_case(t);
+            parse_case(S("1.5\0", 4));
+            parse_case(S("1.5\0" "7", 5));
+            parse_case(S("\0" "1.5", 4));
+            parse_case(S("12\0\0", 4));
+        }
     });
 
-    vrt::phase("parse_random", vrt::tier_count(300000, 8000000), [&](uint64_t, Rng &r) {
+    vrt::phase("parse_random", vrt::tier_count(300000, 8000000), [&](uint64_t i, Rng &r) {
         S t;
         switch (r.below(6)) {
         case 0: case 1: {
@@ -666,6 +993,7 @@ static void body()
         }
         }
         if (r.chance(1, 8)) { static const char *const tails[] = {"x", " ", "f", "e", "..", "\xc3\xa9"}; t += r.pick(tails); }
+        UseDir use(dir_of_case(i, 3));
         parse_case(t);
         if (vrt::want_sample("parse_random") && t.size() > 30) vrt::sample("parse_random", "text=" + t);
     });
@@ -694,6 +1022,7 @@ static void body()
             const size_t T = q * B;
             if (T > 1310720) { vrt::count("scale.skipped_too_large"); return; }
             static const char *const oname[] = {"consumed length", "total length", "length after the number", "position of an embedded NUL", "length of one run"};
+            UseDir use(dir_of_case(i, 4));      // in force inside parse_case only (digits far inside a long text decide the last bit differently under each direction)
             const long nudges[4] = {0, -1, 1, r.chance(1, 2) ? static_cast<long>(2 + r.below(8)) : -static_cast<long>(2 + r.below(8))};
             for (long d : nudges) {
                 if (static_cast<long>(T) + d < 1) continue;
@@ -794,6 +1123,7 @@ static void body()
             const size_t T = q * B;
             if (T > 1100000) { vrt::count("scale.skipped_too_large"); return; }
             static const char *const oname[] = {"precision", "length of the rendering", "width", "offset where the field starts", "offset where the field ends"};
+            UseDir use(dir_of_case(i, 5));      // in force inside format_case only
             long nudges[4] = {0, -1, 1, r.chance(1, 2) ? static_cast<long>(2 + r.below(8)) : -static_cast<long>(2 + r.below(8))};
             const size_t tries = T > 140000 ? 1 : 4;       // the very big ones once, on or next to the multiple
             if (tries == 1) nudges[0] = nudges[r.below(3)];
@@ -888,6 +1218,7 @@ static void body()
             if (T > 1310720) { vrt::count("scale.skipped_too_large"); return; }
             const double v = pick_double(r);
             const bool as_float = r.chance(1, 3);
+            UseDir use(dir_of_case(i, 6));      // in force around the reference rendering and the insertion only
             vrt::cur_rewind();
             vrt::cur_printf("scale_stream value=%s as %s mark=%zu x %zu rendering %s there, history=%s\n", dbl_bits(v).c_str(), as_float ? "float" : "double", q, B, end_anchored ? "ends" : "starts", history_name(history));
             const char pattern = static_cast<char>(r.chance(1, 4) ? 'p' : 0);
@@ -900,6 +1231,228 @@ static void body()
             if (vrt::want_sample("scale_stream"))
                 vrt::sample("scale_stream", sfmt("%s %s streamed behind text so that its rendering %s at %zu x %zu -1..+1 bytes; the text before it: %s", as_float ? "float" : "double", dbl_bits(v).c_str(),
                                                  end_anchored ? "ends" : "starts", q, B, history_name(history)));
+        });
+    }
+    // ---- rounding direction, directed: values whose renderings are ties or inexact at the usual precisions, every notation x a ladder
+    // of precisions x sign flag, under each of the four directions (format_case / mini_case set the direction around the reference
+    // call and the library call only)
+    {
+        vrt::require("rounding.format_calls.upward", 10000);
+        vrt::require("rounding.format_calls.downward", 10000);
+        vrt::require("rounding.format_calls.toward-zero", 10000);
+        vrt::require("rounding.mini_values.upward", 1000);
+        vrt::require("rounding.mini_values.downward", 1000);
+        vrt::require("rounding.mini_values.toward-zero", 1000);
+        vrt::require("rounding.parsed_texts.upward", 10000);
+        vrt::require("rounding.parsed_texts.downward", 10000);
+        vrt::require("rounding.parsed_texts.toward-zero", 10000);
+        vrt::require("rounding.format_rendering_differs_from_to_nearest", 10000);
+        vrt::require("rounding.mini_rendering_differs_from_to_nearest", 1000);
+        vrt::require("rounding.strtod_differs_from_to_nearest", 5000);
+        vrt::require("rounding.strtof_differs_from_to_nearest", 5000);
+        static const double directed[] = {0.25, 0.5, 1.5, 2.5, 3.5, 0.125, 0.375, 0.625, 0.1, 0.2, 0.3, 0.7, 1.0 / 3, 2.0 / 3, 1e-7, 1e23, 1e22, 9.5, 0.95, 0.995, 9.9999995, 999999.5, 99999.95, 1234567.0, 1234565.0,
+                                          123456789.0, 4.9406564584124654e-324, 1.7976931348623157e308, 2.2250738585072014e-308, 0.10000000149011612 /* 0.1f */, 16777217.0, 3.141592653589793, 2.675, 1.005, 8.345,
+                                          5e-5, 9.9999995e-5, 0.000123456789, 1e15 + 0.5, 4503599627370497.5, 1e300, 6.02214076e23, 1.0, 0.0};
+        const size_t nd = sizeof(directed) / sizeof(directed[0]);
+        vrt::phase("rounding_directed", nd * 2 + vrt::tier_count(40, 2000), [&](uint64_t i, Rng &r) {
+            double v = i < nd * 2 ? directed[i / 2] : pick_double(r);
+            if (i < nd * 2 && i % 2) v = -v;
+            static const int precs[] = {-1, 0, 1, 2, 3, 5, 6, 7, 10, 15, 16, 17, 20, 25, 40, 64, 100};
+            for (int dir : DIRS) {
+                UseDir use(dir);
+                for (int p : precs)
+                    for (char cls : {char(0), 'f', 'e', 'E'})
+                        for (int plus = 0; plus < 2; ++plus) {
+                            format_case<double>(Spec{cls, p, plus != 0, 0, 0, 0, 0}, v);
+                            if (std::fabs(v) <= 3e38) format_case<float>(Spec{cls, p, plus != 0, 0, 0, 0, 0}, static_cast<float>(v));
+                        }
+                mini_case<double>(v);
+                if (std::fabs(v) <= 3e38) mini_case<float>(static_cast<float>(v));
+                // the decimal renderings of the value, parsed back under each direction
+                for (const char *f : {"%.17g", "%.9g", "%.20e", "%.3f", "%a"}) parse_case(c_render(f, v));
+            }
+            uint64_t b;
+            memcpy(&b, &v, 8);
+            vrt::distinct(vrt::fnv_u64(b, 65));
+            if (vrt::want_sample("rounding_directed")) vrt::sample("rounding_directed", sfmt("%s in every notation x 17 precisions x sign flag, from_float/from_double/string_stream, and its decimal renderings parsed back, under each of the four rounding directions", dbl_bits(v).c_str()));
+        });
+    }
+    // ---- sequences: the same value rendered / the same text parsed again with the rounding direction, the entry point (ST::format,
+    // from_double / from_float, string_stream: three paths that could share scratch state), the type or one bit changed
+    {
+        vrt::require("memo.consecutive_renderings", 500000);
+        vrt::require("rounding.same_value_twice_direction_changed_in_between", 50000);
+        vrt::require("rounding.same_value_same_entry_point_direction_changed", 20000);
+        vrt::require("rounding.same_value_twice_and_the_renderings_differ", 20000);
+        vrt::require("memo.same_value_through_another_entry_point", 20000);
+        vrt::require("memo.identical_rendering_repeated", 20000);
+        vrt::require("memo.same_value_other_notation", 20000);
+        vrt::require("memo.same_value_as_the_other_type", 5000);
+        vrt::require("memo.same_value_other_sign", 5000);
+        vrt::require("memo.via.format", 100000);
+        vrt::require("memo.via.from_double", 100000);
+        vrt::require("memo.via.from_float(double)", 100000);
+        vrt::require("memo.via.string_stream", 100000);
+        vrt::require("memo.same_text_parsed_twice_direction_changed_in_between", 20000);
+        vrt::require("memo.same_text_twice_and_the_results_differ", 5000);
+        vrt::require("memo.text_at_the_address_of_the_previous_one", 50000);
+
+        // every ordered pair of directions x every ordered pair of entry points x notation, on direction-sensitive values
+        vrt::phase("rounding_pairs", vrt::tier_count(96, 3000), [&](uint64_t i, Rng &r) {
+            static const double vals[] = {0.1, 0.25, 2.5, 1.0 / 3, 1e-7, 123456789.0, 0.3, 1e23, 999999.5, 4.9406564584124654e-324, 1.7976931348623157e308, 0.10000000149011612};
+            double v = i < 24 ? vals[i / 2] : pick_double(r);
+            if (i % 2) v = -v;
+            const bool as_float = i % 3 == 2 && (std::isnan(v) || std::isinf(v) || std::fabs(v) <= 3e38);
+            if (as_float) v = static_cast<double>(static_cast<float>(v));
+            for (char letter : {'g', 'e', 'f', 'E', 'G', 'F'}) {
+                if ((letter == 'f' || letter == 'F') && std::fabs(v) > 1e60) continue;
+                for (int precision : {-1, 1})
+                    for (int d1 : DIRS)
+                        for (int d2 : DIRS)
+                            for (unsigned e1 = 0; e1 < N_FVIA; ++e1)
+                                for (unsigned e2 = 0; e2 < N_FVIA; ++e2) {
+                                    if (precision != -1 && e1 != F_FORMAT && e2 != F_FORMAT) continue;
+                                    Step a;
+                                    a.v = v; a.as_float = as_float; a.letter = letter; a.precision = precision; a.via = e1; a.dir = d1;
+                                    Step b = a;
+                                    b.via = e2; b.dir = d2;
+                                    const S wa = run_step(a, nullptr, "pair", true);
+                                    const S wb = run_step(b, &a, "pair", true);
+                                    classify_steps(a, wa, b, wb);
+                                }
+            }
+            uint64_t bits;
+            memcpy(&bits, &v, 8);
+            vrt::distinct(vrt::fnv_u64(bits, 66));
+            if (vrt::want_sample("rounding_pairs")) vrt::sample("rounding_pairs", sfmt("%s rendered twice in a row: 16 ordered pairs of rounding directions x 16 ordered pairs of entry points (format, from_double, from_float(double), string_stream) x 6 notations", dbl_bits(v).c_str()));
+        });
+
+        // soak: chains of > 70000 renderings inside ONE case, each related to the one before (the same value under another direction /
+        // through another entry point / as the other type / negated / one ulp away / in another notation) or fresh; runs of 64..300
+        // identical renderings followed directly by one with only the direction or the last bit changed
+        vrt::require("soak.renderings", 4000000);
+        vrt::require("soak.boring_runs_then_a_change", 2000);
+        vrt::phase("soak_render", vrt::thorough() ? 160 : 16, [&](uint64_t, Rng &r) {
+            const size_t per_segment = static_cast<size_t>(vrt::tier_count(70000, 120000));
+            uint64_t done = 0;
+            Step prev = next_step(r, Step(), 99);
+            S wprev = run_step(prev, nullptr, "soak", true);
+            for (unsigned segment = 0; segment < 5; ++segment) {       // format only, from_double / from_float only, from_float(double) only, string_stream only, mixed
+                size_t boring = 0;
+                bool change_next = false;
+                for (size_t it = 0; it < per_segment; ++it) {
+                    unsigned kind;
+                    if (boring) { kind = 3; if (--boring == 0) change_next = true; }
+                    else if (change_next) { kind = r.chance(2, 3) ? 0 : 4; change_next = false; vrt::count("soak.boring_runs_then_a_change"); }
+                    else if (r.chance(1, 600)) { kind = 99; boring = 64 + r.below(237); }
+                    else { static const unsigned kinds[] = {0, 0, 0, 1, 2, 2, 3, 4, 5, 6, 7, 99, 99, 99}; kind = r.pick(kinds); }
+                    Step s = next_step(r, prev, kind);
+                    if (segment < 4) {
+                        s.via = segment;
+                        if (segment == F_STREAM) s.letter = 'g';
+                        if (segment == F_FORMAT && (s.letter == 'F' || s.letter == 'G')) s.letter = static_cast<char>(s.letter + 32);
+                    } else if (boring) s.via = prev.via;
+                    const S w = run_step(s, &prev, "soak", (it & 255) == 0);
+                    classify_steps(prev, wprev, s, w);
+                    prev = s;
+                    wprev = w;
+                    ++done;
+                }
+            }
+            vrt::count("soak.renderings", done);
+            vrt::distinct(vrt::fnv_u64(r.next(), 67));
+            if (vrt::want_sample("soak"))
+                vrt::sample("soak", sfmt("%zu consecutive renderings per entry point (ST::format, from_double/from_float, from_float(double), string_stream <<, then mixed) in one process, each related to the one before; last: %s", per_segment, step_text(prev).c_str()));
+        });
+
+        // same storage: texts of identical length that share their first and last 16 bytes, parsed one after the other in storage that
+        // keeps its address, each under its own rounding direction; every text is parsed again right away under another direction
+        vrt::require("same_storage.texts", 1000);
+        vrt::require("same_storage.results_differ_between_siblings", 300);
+        static const size_t sizes[] = {8, 12, 15, 16, 20, 40, 64, 100, 256, 300, 1024, 1500, 4096, 5000, 16384, 70000};
+        const size_t nsizes = sizeof(sizes) / sizeof(sizes[0]);
+        vrt::phase("same_storage", vrt::tier_count(nsizes * 48, nsizes * 1200), [&](uint64_t i, Rng &r) {
+            const size_t n = sizes[i % nsizes];
+            const unsigned mode = static_cast<unsigned>((i / nsizes) % 3);
+            size_t share;
+            const std::vector<S> texts = sibling_floats(r, n, share);
+            std::optional<vrt::Box<ST::string>> cur;
+            const char *last_text = nullptr;
+            double last_value = 0;
+            for (size_t k = 0; k < texts.size(); ++k) {
+                const S &t = texts[k];
+                store_text(cur, t, mode == 0 ? 0 : mode == 1 ? 1 : 2);
+                if (k && (*cur)->c_str() == last_text) vrt::count("memo.text_at_the_address_of_the_previous_one");
+                last_text = (*cur)->c_str();
+                const int d1 = r.chance(1, 2) ? FE_TONEAREST : DIRS[r.below(4)];
+                { UseDir use(d1); parse_on(**cur, t, r.chance(1, 2)); }
+                if (r.chance(1, 2)) {
+                    UseDir use(other_dir(r, d1));
+                    parse_on(**cur, t, r.chance(1, 2));
+                    vrt::count("memo.same_text_parsed_twice_direction_changed_in_between");
+                }
+                const double v = strtod(t.c_str(), nullptr);
+                if (k && !same_bits(v, last_value)) vrt::count("same_storage.results_differ_between_siblings");
+                last_value = v;
+                vrt::count("same_storage.texts");
+            }
+            cur.reset();
+            vrt::count(sfmt("same_storage.mode.%s", mode == 0 ? "assigned" : mode == 1 ? "cleared_then_assigned" : "destroyed_and_rebuilt"));
+            if (vrt::want_sample("same_storage"))
+                vrt::sample("same_storage", sfmt("%zu texts of %zu bytes sharing their first and last %zu bytes, parsed one after the other in the same storage under varying rounding directions; first: %s", texts.size(), n, share, scale::brief(texts[0]).c_str()));
+        });
+
+        // soak: > 70000 texts of 16..64 bytes parsed one after the other inside ONE case: the same text again under another direction,
+        // a text of the same length with one byte changed at the same address, or a fresh one
+        vrt::require("soak.parsed_texts", 1000000);
+        vrt::require("soak.parse_boring_runs_then_a_change", 500);
+        vrt::phase("soak_parse", vrt::thorough() ? 96 : 16, [&](uint64_t, Rng &r) {
+            const size_t iters = static_cast<size_t>(vrt::tier_count(70000, 200000));
+            std::optional<vrt::Box<ST::string>> cur;
+            S t;
+            int dir = FE_TONEAREST;
+            size_t boring = 0;
+            bool change_next = false;
+            const char *last_text = nullptr;
+            uint64_t same_address = 0, twice = 0, twice_differ = 0;
+            double last_value = 0;
+            for (size_t it = 0; it < iters; ++it) {
+                bool same_text = false, dir_changed = false;
+                if (boring) { same_text = true; if (--boring == 0) change_next = true; }
+                else if (!t.empty() && (change_next ? r.chance(1, 2) : r.chance(1, 3))) {      // the same text under another direction
+                    if (change_next) vrt::count("soak.parse_boring_runs_then_a_change");
+                    change_next = false;
+                    same_text = dir_changed = true;
+                    dir = other_dir(r, dir);
+                } else if (!t.empty() && (change_next || r.chance(1, 2))) {                   // one byte changes (a digit, or the number stops there)
+                    if (change_next) vrt::count("soak.parse_boring_runs_then_a_change");
+                    const size_t at = change_next ? t.size() - 1 - r.below(7) : std::min(t.size() - 1, 8 + r.below(t.size() - 16 + 1));
+                    char c = r.chance(1, 5) ? "x \0.e"[r.below(5)] : static_cast<char>('0' + r.below(10));
+                    if (c == t[at]) c = c == '1' ? '0' : '1';
+                    t[at] = c;
+                    change_next = false;
+                } else {
+                    t = float_text(r, 16 + r.below(49));
+                    dir = r.chance(1, 2) ? FE_TONEAREST : DIRS[r.below(4)];
+                    if (r.chance(1, 100)) boring = 64 + r.below(237);
+                }
+                if (!same_text || !cur || r.chance(1, 4)) store_text(cur, t, static_cast<unsigned>(r.below(4)));
+                if ((*cur)->c_str() == last_text) ++same_address;
+                last_text = (*cur)->c_str();
+                { UseDir use(dir); parse_on(**cur, t, (it & 1) != 0); }
+                double v;
+                { UseDir use(dir); Dir in_force; v = strtod(t.c_str(), nullptr); }
+                if (dir_changed) { ++twice; if (!same_bits(v, last_value)) ++twice_differ; }
+                last_value = v;
+            }
+            cur.reset();
+            vrt::count("soak.parsed_texts", iters);
+            vrt::count("memo.text_at_the_address_of_the_previous_one", same_address);
+            vrt::count("memo.same_text_parsed_twice_direction_changed_in_between", twice);
+            vrt::count("memo.same_text_twice_and_the_results_differ", twice_differ);
+            if (vrt::want_sample("soak_parse"))
+                vrt::sample("soak_parse", sfmt("%zu texts of 16..64 bytes parsed one after the other with to_double / to_float under varying rounding directions; %llu at the address of their predecessor, %llu the same text again under another direction; last: %s", iters,
+                                               static_cast<unsigned long long>(same_address), static_cast<unsigned long long>(twice), show(t).c_str()));
         });
     }
     vrt::alloc::check_pairing("floats");
